@@ -52,3 +52,5 @@ pub open spec fn is_tree_pack_of(files: Seq<IndexFile>, n: int, id: PackId) -> b
     exists|i: int, j: int| 0 <= i < n && 0 <= j < all_packs_spec(files[i]).len()
         && (#[trigger] all_packs_spec(files[i])[j]).id == id && pack_type_spec(all_packs_spec(files[i])[j]) == BlobType::Tree
 }
+
+pub struct VHotHandle { pub _opaque: u64 }
